@@ -1,0 +1,17 @@
+//go:build verif
+
+package routing
+
+// Contracts for the verifier in /verif (comment-only file; no declarations).
+
+//@ func muskingum(inflows, laterals, s, prevInflow, prevOutflow, k, x, deltaT, outflows) returns (rs, rIn, rOut)
+//@   noalias
+//@   safety C11
+//@   requires inflows.len == laterals.len && inflows.len == outflows.len
+//@   requires k > 0 && 0 <= x && x < 1 && deltaT > 0
+//@   assigns outflows.cells
+//@   loop 0 invariant [C11.musk-weights] a1 + a2 + a3 == 1
+//@   loop 0 invariant 0 <= i && i <= nDays
+//@   loop 0 step [C11.musk-step] outflows.at(i) == a1*(inflows.at(i)+laterals.at(i)) + a2*pre(prevInflow) + a3*pre(prevOutflow)
+//@   loop 0 step [C11.musk-carry-inflow] post(prevInflow) == inflows.at(i) + laterals.at(i)
+//@   loop 0 step [C11.musk-carry-outflow] post(prevOutflow) == outflows.at(i)
